@@ -386,6 +386,39 @@ def k_fixed(ctx):
               detail="tan(B_new) == tan(lat), both in (-90, 90) degrees")
 
 
+def _loop_test():
+    """the test of the `while` loop of cart2geodetic, taken from the current source"""
+    src = textwrap.dedent(inspect.getsource(GD.cart2geodetic))
+    loops = [n for n in ast.walk(ast.parse(src)) if isinstance(n, ast.While)]
+    if len(loops) != 1:
+        raise RuntimeError("cart2geodetic: expected exactly one while loop")
+    return compile(ast.fix_missing_locations(ast.Expression(body=loops[0].test)), "<cart2geodetic loop test>", "eval")
+
+
+@harness("C07.iteration-guard", cases=lambda tier: [1, 2, 3], expect=lambda c: ["iterates-until-every-element-has-converged", "stops-at-the-fixed-point"])
+def k_guard(ctx):
+    """the loop of cart2geodetic goes on while *any* element of the latitude array still moves by more
+    than 1e-7 degrees per pass (arrays whose elements converge at different speeds), and it stops once no
+    element moves at all."""
+    n = ctx.case
+    code = _loop_test()
+    B = ctx.real_array("B", n)
+    B0 = ctx.real_array("B0", n)
+    tol = math.radians(1e-7)
+    with (patched((GD, "np", make_np())) if ctx.sym else patched()):
+        go = eval(code, {"np": GD.np, "B": B, "B0": B0})
+    go = bool(go)
+    moving = [Or(B[i] - B0[i] > tol, B0[i] - B[i] > tol) for i in range(n)] if ctx.sym else [abs(B[i] - B0[i]) > tol for i in range(n)]
+    same = [B[i] == B0[i] for i in range(n)]
+    if ctx.sym:
+        ctx.check("iterates-until-every-element-has-converged", True if go else Not(Or(*moving)),
+                  detail="the loop stopped (%r elements)" % n)
+        ctx.check("stops-at-the-fixed-point", Not(And(*same)) if go else True, detail="the loop goes on although nothing moves")
+    else:
+        ctx.check("iterates-until-every-element-has-converged", go or not any(moving))
+        ctx.check("stops-at-the-fixed-point", not (go and all(same)))
+
+
 # ---- K4: position + line of sight ---------------------------------------------------------------------
 def _pl_inputs(ctx, side):
     """r > 0, |lat| <= 87.2, |lon| <= 179.88, 0.23 <= za <= 179.77, 0.23 <= |aa| <= 179.77 degrees
@@ -491,9 +524,9 @@ def conformance(tier):
 
 
 PLAN = {
-    "quick": {"harnesses": ["C07.radius", "C07.geodetic-definition", "C07.spherical-roundtrip", "C07.spherical-geodetic", "C07.composed", "C07.distances", "C07.fixed-point", "C07.poslos"],
+    "quick": {"harnesses": ["C07.radius", "C07.geodetic-definition", "C07.spherical-roundtrip", "C07.spherical-geodetic", "C07.composed", "C07.distances", "C07.fixed-point", "C07.poslos", "C07.iteration-guard"],
               "opts": {"query_timeout_ms": 30000}},
-    "thorough": {"harnesses": ["C07.radius", "C07.geodetic-definition", "C07.spherical-roundtrip", "C07.spherical-geodetic", "C07.composed", "C07.distances", "C07.fixed-point", "C07.poslos"],
+    "thorough": {"harnesses": ["C07.radius", "C07.geodetic-definition", "C07.spherical-roundtrip", "C07.spherical-geodetic", "C07.composed", "C07.distances", "C07.fixed-point", "C07.poslos", "C07.iteration-guard"],
                  "opts": {"query_timeout_ms": 120000}},
 }
 BOUNDS = {"position + line of sight": "every r > 0, |lat| <= 87.2, |lon| <= 179.88, 0.23 <= za <= 179.77, 0.23 <= |aa| <= 179.77 degrees "
